@@ -14,7 +14,7 @@ PROP = dict(
     floor=dict(quick=1500, thorough=15000),
     confirm_replays=16,
     assumptions=TRUST + ['thread interleavings are sampled; TSan happens-before analysis covers the executed accesses'],
-    bins=[rc('C08_refcount', 'harness/C08_refcount.cpp', None),
+    bins=[rc('C08_refcount', 'harness/C08_refcount.cpp', None, hang_s=600),
           rc('C08_refcount_tsan', 'harness/C08_refcount.cpp', None, cxx='g++', san='-fsanitize=thread -fno-omit-frame-pointer',
-             flags='-DC08_BIN=\\"C08_refcount_tsan\\"', quick=dict(scale=0.5), thorough=dict(scale=5, seeds=4))],
+             flags='-DC08_BIN=\\"C08_refcount_tsan\\"', hang_s=600, quick=dict(scale=0.5), thorough=dict(scale=5, seeds=4))],
 )
